@@ -455,11 +455,11 @@ impl Runner {
         Runner { app, log, raw: RawState::default(), ui: vec![], cfg_actions }
     }
 
-    fn show_log(&self, items: &[LogItem]) -> (Vec<String>, Vec<String>, Vec<String>, Vec<String>, Vec<String>) {
+    fn show_log(&self, items: &[LogItem], is_op: bool) -> (Vec<String>, Vec<String>, Vec<String>, Vec<String>, Vec<String>) {
         let slots = self.app.world().resource::<Slots>();
         let ent = |e: Entity| slots.slot_of(e);
         let (mut pre, mut main, mut post, mut lg, mut built) = (vec![], vec![], vec![], vec![], vec![]);
-        let mut phase = 0;
+        let mut phase = if is_op { 1 } else { 0 };
         for it in items {
             match it {
                 LogItem::Mark("A") => phase = 1,
@@ -651,7 +651,7 @@ impl Runner {
             Err(_) => true,
         };
         let items = self.log.take();
-        let (pre, main, post, lg, built) = self.show_log(&items);
+        let (pre, main, post, lg, built) = self.show_log(&items, h == "SOp");
         let world = self.app.world_mut();
         let snaps = snapshot(world);
         let mir = mirror(world);
